@@ -265,6 +265,7 @@ type vrObs struct {
 
 type vrStepIn struct {
 	Act vrAct `json:"act"`
+	Obs vrObs `json:"obs"`
 }
 
 type vrPathIn struct {
@@ -864,6 +865,25 @@ func (x *vrRun) envAct(a *vrAct) error {
 var vrGateOps = map[string]bool{"Best": true, "Sub": true, "HdrH": true, "Hdr": true,
 	"FHH": true, "CF": true, "Blk": true, "IsCur": true}
 
+// vrSameObs: does the real rescan stand where the model predicted?
+func vrSameObs(a, b vrObs) bool {
+	if a.St != b.St || a.Upd != b.Upd || a.At != b.At || a.Arg != b.Arg || len(a.Ev) != len(b.Ev) {
+		return false
+	}
+	for i := range a.Ev {
+		x, y := a.Ev[i], b.Ev[i]
+		if x.K != y.K || x.S != y.S || x.B != y.B || x.H != y.H || len(x.Txs) != len(y.Txs) {
+			return false
+		}
+		for j := range x.Txs {
+			if x.Txs[j] != y.Txs[j] {
+				return false
+			}
+		}
+	}
+	return true
+}
+
 func vrRunPath(w *vrWorld, p vrPathIn) (out vrPathOut) {
 	out.ID = p.ID
 	out.Steps = []vrStepOut{}
@@ -875,6 +895,90 @@ func vrRunPath(w *vrWorld, p vrPathIn) (out vrPathOut) {
 		x.teardown()
 	}()
 	out.InitObs = x.obs()
+	diverged := vrFollow(x, p, &out)
+	// Where the code left the model's prediction the path no longer says
+	// what comes next (the model's rescan may even have ended): let the real
+	// rescan run on against the chain as it stands, so that the consequences
+	// of the deviation reach the callbacks and are judged.
+	if diverged && out.Error == "" && !out.Race && x.r != nil && x.st == 0 {
+		vrRunOn(x, &out)
+	}
+	return
+}
+
+// vrRunOn: every chain-source call succeeds, every queued notification is
+// delivered, the retry timer is given time to fire; ends when the rescan is
+// idle in its select, has ended, or after a bounded number of steps.
+func vrRunOn(x *vrRun, out *vrPathOut) {
+	const tmo = 10 * time.Second
+	const note = "run-on after the code left the model's prediction"
+	retry := vrAct{Op: "Retry", Res: "ok", B: -1, Add: []int{}}
+	for n := 0; n < 40 && x.st == 0; n++ {
+		if x.gate != nil {
+			g := x.release(vrReply{ans: true})
+			if err := x.settle(true, tmo); err != nil {
+				out.Error = "run-on after " + g.at + ": hang\n" + vrDump()
+				return
+			}
+			a := vrAct{Op: g.at, Res: g.res, B: g.arg, Add: []int{}}
+			switch g.at {
+			case "Best", "HdrH":
+				a.B = g.resB
+			case "IsCur":
+				a.B = -1
+			}
+			out.Steps = append(out.Steps, vrStepOut{Act: a, Obs: x.obs(), Note: note})
+			continue
+		}
+		sub := x.c.liveSub()
+		var nt blockntfns.BlockNtfn
+		if sub != nil {
+			sub.waitArrived(2 * time.Second)
+			sub.mu.Lock()
+			if len(sub.pending) > 0 {
+				nt = sub.pending[0]
+			}
+			sub.mu.Unlock()
+		}
+		if nt == nil {
+			// nothing to deliver: is a retry pending?
+			if err := x.settle(false, 150*time.Millisecond); err != nil || x.gate == nil {
+				return
+			}
+			out.Steps = append(out.Steps, vrStepOut{Act: retry, Obs: x.obs(), Note: note})
+			continue
+		}
+		hd := nt.Header()
+		a := vrAct{Op: "Ntfn", Res: "conn", B: x.w.idOf(hd.BlockHash()), Add: []int{}}
+		if _, ok := nt.(*blockntfns.Disconnected); ok {
+			a.Res = "disc"
+		}
+		select {
+		case sub.out <- nt:
+			sub.mu.Lock()
+			sub.pending = sub.pending[1:]
+			sub.mu.Unlock()
+		case g := <-x.c.ev:
+			x.gate = g
+			out.Steps = append(out.Steps, vrStepOut{Act: retry, Obs: x.obs(), Note: note})
+			continue
+		case <-time.After(tmo):
+			out.Error = "run-on: notification not taken\n" + vrDump()
+			return
+		}
+		if err := x.settle(true, tmo); err != nil {
+			out.Error = "run-on after Ntfn: hang\n" + vrDump()
+			return
+		}
+		out.Steps = append(out.Steps, vrStepOut{Act: a, Obs: x.obs(), Note: note})
+	}
+}
+
+// vrFollow executes the path; reports whether the code left the model's
+// prediction (the path's expected observations) without a driver error.
+func vrFollow(x *vrRun, p vrPathIn, out *vrPathOut) bool {
+	w := x.w
+	div := false
 	// normal steps take well under a millisecond, the retry timer 100 ms
 	const tmo = 10 * time.Second
 	const retryTmo = 2 * time.Second
@@ -886,7 +990,7 @@ func vrRunPath(w *vrWorld, p vrPathIn) (out vrPathOut) {
 		note := ""
 		if a.Op != "Start" && x.r == nil {
 			out.Error = "path does not begin with Start"
-			return
+			return false
 		}
 		// did the retry timer move the goroutine on its own?
 		if x.r != nil && x.gate == nil && x.st == 0 && a.Op != "Retry" {
@@ -898,7 +1002,7 @@ func vrRunPath(w *vrWorld, p vrPathIn) (out vrPathOut) {
 					Obs:  x.obs(),
 					Note: "timer-race: the retry timer fired before the path asked for it"})
 				out.Race = true
-				return
+				return false
 			default:
 			}
 		}
@@ -906,7 +1010,7 @@ func vrRunPath(w *vrWorld, p vrPathIn) (out vrPathOut) {
 		case a.Op == "Start":
 			if err := x.start(); err != nil {
 				out.Error = "start: " + err.Error() + "\n" + vrDump()
-				return
+				return false
 			}
 			a.B = w.u.StartB
 
@@ -914,12 +1018,12 @@ func vrRunPath(w *vrWorld, p vrPathIn) (out vrPathOut) {
 			if x.gate == nil {
 				out.Steps = append(out.Steps, vrStepOut{Act: a, Obs: x.obs(),
 					Note: "the rescan is not parked in a chain-source call"})
-				return
+				return true
 			}
 			g := x.release(vrReply{fail: a.Res == "fail", ans: a.Res == "true"})
 			if err := x.settle(true, tmo); err != nil {
 				out.Error = "after " + g.at + ": hang\n" + vrDump()
-				return
+				return false
 			}
 			if g.at != a.Op {
 				note = "parked in " + g.at + ", path expected " + a.Op
@@ -939,7 +1043,7 @@ func vrRunPath(w *vrWorld, p vrPathIn) (out vrPathOut) {
 			if sub == nil || x.gate != nil || x.st != 0 {
 				out.Steps = append(out.Steps, vrStepOut{Act: a, Obs: x.obs(),
 					Note: "no select to deliver a notification to"})
-				return
+				return true
 			}
 			sub.waitArrived(retryTmo)
 			sub.mu.Lock()
@@ -952,7 +1056,7 @@ func vrRunPath(w *vrWorld, p vrPathIn) (out vrPathOut) {
 			if n == nil {
 				out.Steps = append(out.Steps, vrStepOut{Act: a, Obs: x.obs(),
 					Note: "the subscription has no notification queued"})
-				return
+				return true
 			}
 			hd := n.Header()
 			a.B = w.idOf(hd.BlockHash())
@@ -969,14 +1073,14 @@ func vrRunPath(w *vrWorld, p vrPathIn) (out vrPathOut) {
 					Obs:  x.obs(),
 					Note: "timer-race: the retry timer fired before the notification was taken"})
 				out.Race = true
-				return
+				return false
 			case <-time.After(tmo):
 				out.Error = "notification not taken\n" + vrDump()
-				return
+				return false
 			}
 			if err := x.settle(true, tmo); err != nil {
 				out.Error = "after Ntfn: hang\n" + vrDump()
-				return
+				return false
 			}
 
 		case a.Op == "Retry":
@@ -984,7 +1088,7 @@ func vrRunPath(w *vrWorld, p vrPathIn) (out vrPathOut) {
 				if err := x.settle(false, retryTmo); err != nil {
 					out.Steps = append(out.Steps, vrStepOut{Act: a, Obs: x.obs(),
 						Note: "the retry timer did not fire"})
-					return
+					return true
 				}
 			}
 
@@ -996,7 +1100,7 @@ func vrRunPath(w *vrWorld, p vrPathIn) (out vrPathOut) {
 			}
 			if err := x.settle(true, tmo); err != nil {
 				out.Error = "after SendUpd: hang\n" + vrDump()
-				return
+				return false
 			}
 
 		case a.Op == "Quit":
@@ -1007,26 +1111,30 @@ func vrRunPath(w *vrWorld, p vrPathIn) (out vrPathOut) {
 			if x.gate == nil {
 				if err := x.settle(false, tmo); err != nil {
 					out.Error = "after Quit: hang\n" + vrDump()
-					return
+					return false
 				}
 			}
 
 		case a.Op == "Extend" || a.Op == "AddFH" || a.Op == "Rollback":
 			if err := x.envAct(&a); err != nil {
 				out.Error = err.Error()
-				return
+				return false
 			}
 
 		default:
 			out.Error = "unknown op " + a.Op
-			return
+			return false
 		}
-		out.Steps = append(out.Steps, vrStepOut{Act: a, Obs: x.obs(), Note: note})
+		o := x.obs()
+		out.Steps = append(out.Steps, vrStepOut{Act: a, Obs: o, Note: note})
+		if note != "" || !vrSameObs(o, s.Obs) || a.Op != s.Act.Op || a.Res != s.Act.Res {
+			div = true
+		}
 		if x.st != 0 {
 			break
 		}
 	}
-	return
+	return div
 }
 
 func TestVerifRescanReplay(t *testing.T) {
